@@ -15,7 +15,8 @@ Idx(e, n)   == [k |-> "idx", e |-> e, key |-> IntV(n)]
 IdxK(e, kv) == [k |-> "idx", e |-> e, key |-> kv]              \* x.d["a"]: a dict field indexed by a string key
 StrV(s)     == [t |-> "str", v |-> s]
 NoArg       == [t |-> "noarg", v |-> 0]
-MCall(e, m, arg) == [k |-> "mcall", e |-> e, m |-> m, arg |-> arg]
+MCall(e, m, arg) == [k |-> "mcall", e |-> e, m |-> m, arg |-> arg, kw |-> FALSE]
+MCallKw(e, m, arg) == [k |-> "mcall", e |-> e, m |-> m, arg |-> arg, kw |-> TRUE]      \* x.m(k = arg)
 Flat(j)     == [k |-> "flat", j |-> j]
 Concat(e)   == [k |-> "concat", e |-> e]
 
@@ -73,6 +74,8 @@ MoreLeaves(x) ==
         CmpC("ge", At(At(x, "ref"), "m"), At(x, "n")),
         CmpC("eq", At(x, "o"), LitNone),
         CmpC("eq", At(x, "o"), LitI(0)),
+        Truth(MCallKw(x, "n_ge", IntV(2))),
+        CmpC("eq", MCallKw(x, "n_plus", IntV(-1)), LitI(1)),
         CmpC("eq", IdxK(At(x, "d"), StrV(<<1>>)), LitI(0)),
         CmpC("lt", IdxK(At(x, "d"), StrV(<<2>>)), At(x, "n")) >>
 
